@@ -3,10 +3,11 @@
 From Coq Require Extraction.
 From Coq Require Import ExtrOcamlBasic.
 From RainVerif Require Import Params.
-From RainVerif.model Require Import Bytes Crc Log LogScript.
+From RainVerif.model Require Import Bytes Crc Log LogScript Bloom FilterBlock.
 
 Extraction Language OCaml.
 
 Extraction "../ocaml/model.ml"
   crc32c mask_checksum unmask_checksum
-  log_read_all log_script_run log_script_spec.
+  log_read_all log_script_run log_script_spec
+  bloom_create bloom_match fb_build fb_parse fb_match.
